@@ -13,9 +13,16 @@ package discovery
 //@ func (verifier.Verifier).VerifyVP
 //@   trusted
 //@   benign
+// A presentation "exists" when a row of exactly this service, subject and presentation id was counted (a struct condition:
+// gorm drops zero-valued fields, so callers must not pass an empty id - validateRetraction's contract demands that).
 //@ func (*sqlStore).exists
-//@   trusted
-//@   benign
+//@   prop C16
+//@   assume-benign
+//@   call (*gorm.DB).Where #1 requires [rows-of-this-service-subject-and-presentation] typeOf(arg(1)) == presentationRecord && len(arg(2)) == 0
+//@        && arg(1).(presentationRecord).ServiceID == serviceID && arg(1).(presentationRecord).CredentialSubjectID == credentialSubjectID
+//@        && arg(1).(presentationRecord).PresentationID == presentationID
+//@   ensures [exists-iff-a-row-was-counted] isNilIface(result.1) ==> did(call (*gorm.DB).Count #1) && arg(call (*gorm.DB).Count #1, 1) == &count && (result.0 <==> count > 0)
+//@        && arg(call (*gorm.DB).Count #1, 0) == ret(call (*gorm.DB).Where #1)
 //@ func (pe.PresentationDefinition).Match
 //@   trusted
 //@   benign
@@ -180,9 +187,12 @@ package discovery
 //@   ensures [rejected-presentations-are-reported] did(call (*Module).verifyRegistration #1) && !isNilIface(ret(call (*Module).verifyRegistration #1)) ==> !isNilIface(result)
 //@   ensures [duplicates-are-reported] did(call (*sqlStore).exists #1) && ret(call (*sqlStore).exists #1).0 == true ==> !isNilIface(result)
 
+// The timestamp of a list is the one stored in the row of exactly this service; no row means 0 (nothing received yet).
 //@ func (*sqlStore).getTimestamp
-//@   trusted
-//@   benign
+//@   prop C16
+//@   assume-benign
+//@   call (*gorm.DB).Find #1 requires [the-row-of-this-service] arg(1) == any(&service) && len(arg(2)) == 2 && arg(2)[0] == any("id = ?") && arg(2)[1] == any(serviceID) && arg(0) == s.db
+//@   ensures [timestamp-of-that-row] isNilIface(result.1) ==> (errors.Is(ret(call (*gorm.DB).Find #1).Error, gorm.ErrRecordNotFound) ? result.0 == 0 : result.0 == service.LastLamportTimestamp)
 //@ func (*sqlStore).wipeOnSeedChange
 //@   trusted
 //@   benign
